@@ -2,6 +2,7 @@
 """Merge the confirmation log into seeded/<name>/meta.json (what was run, which checks catch it)."""
 import json, os, re, sys
 HERE = os.path.dirname(os.path.dirname(os.path.abspath(__file__)))
+NOTES = json.load(open(os.path.join(HERE, "seeded", "notes.json"))) if os.path.exists(os.path.join(HERE, "seeded", "notes.json")) else {}
 for name in sorted(os.listdir(os.path.join(HERE, "seeded"))):
     d = os.path.join(HERE, "seeded", name)
     if not os.path.isdir(d):
@@ -32,5 +33,7 @@ for name in sorted(os.listdir(os.path.join(HERE, "seeded"))):
     caught = sorted(c for c, v in final.items() if v["rc"] == 1)
     meta["concrete_failing_input_found_by"] = sorted(c for c, v in final.items() if v["rc"] == 1 and "no-failing-input-found" not in v["line"])
     meta["caught_by"] = caught
+    if name in NOTES:
+        meta["builder_note"] = NOTES[name]
     json.dump(meta, open(mp, "w"), indent=1)
     print(name, "caught_by", caught, "first", {c: v["rc"] for c, v in first.items()}, "after", {c: v["rc"] for c, v in after.items()})
